@@ -65,6 +65,10 @@ EXPLANATION += (
     ' Round 6: sums and CPM denominators are not cast back to the element type of the raw data (R-DTYPE).'
 )
 
+EXPLANATION += (
+    ' Round 7: the rows a tree built from the reference file assigns to leaves are file positions (R-PROV/rows-are-file-positions, rule of C10).'
+)
+
 RULE_TEXT = (
     "one obligation per key of each producer, per required read, per "
     "merge loop, per statistic, per use of the row index")
@@ -90,6 +94,10 @@ def check(ctx):
     check_same_gene_order(ctx)
     check_merge_tables_agree(ctx)
     check_dataset_keys_as_given(ctx)
+    # the rows a tree built from the reference file assigns to its leaves
+    # are file positions (rule of C10): statistics are summed over them
+    from .C10 import check_rows_are_file_positions
+    check_rows_are_file_positions(ctx)
     from .C05 import check_tiles
     check_tiles(ctx, ('diff_exp.precompute_from_anndata',
                       'diff_exp.precompute_utils'), floor=1)
